@@ -2,6 +2,7 @@ package main
 
 import (
 	"fmt"
+	"strconv"
 	"strings"
 
 	"github.com/internetarchive/Zeno/internal/verif/lib/e2e"
@@ -24,6 +25,7 @@ type item struct {
 	Status  string `json:"status"`  // 200 | 204 | 404 | 301 | 500 | 429 | 403cf
 	Path    string `json:"path"`
 	Policy  bool   `json:"policy,omitempty"` // element of the discard-policy grid (crawled under non-default --warc-discard-status lists)
+	Sweep   bool   `json:"sweep,omitempty"`  // element of the status-code sweep
 }
 
 func (it item) class() string { return fmt.Sprintf("%s-%s-%s-%s", it.Status, it.Kind, it.Enc, it.Size) }
@@ -99,6 +101,9 @@ func statusCode(s string) int {
 		return 500
 	case "429":
 		return 429
+	}
+	if n, err := strconv.Atoi(s); err == nil {
+		return n
 	}
 	return 403
 }
@@ -213,6 +218,24 @@ func policyItems(start int) []item {
 	return out
 }
 
+// sweepStatuses: every assigned status code that may carry a body and is not a redirection (those are followed,
+// part of the 301 class), beyond the representatives of the grid. What the discard policy accepts is decided
+// per code, so the "accepted responses are in the WARC" clause is checked per code.
+var sweepStatuses = []int{201, 202, 203, 206, 207, 226, 300, 400, 401, 402, 403, 405, 406, 407, 408, 409, 410, 411, 412, 413, 414, 415, 416, 417,
+	418, 421, 422, 423, 424, 425, 426, 428, 431, 451, 501, 502, 503, 504, 505, 506, 507, 508, 510, 511, 520, 521, 522, 523, 524, 525, 526, 530, 599}
+
+// sweepItems: one small HTML body per code of sweepStatuses, default policy.
+func sweepItems(start int) []item {
+	var out []item
+	for _, st := range sweepStatuses {
+		it := item{ID: start + len(out), Size: "2049", Kind: "html", Enc: "identity", Framing: "cl", Status: strconv.Itoa(st), Sweep: true}
+		it.N = payloadLen(it)
+		it.Path = fmt.Sprintf("/s/%04d-%d", it.ID, st)
+		out = append(out, it)
+	}
+	return out
+}
+
 // program installs the routes of an item on the origin; it returns the number
 // of exchanges a complete crawl of the item produces.
 func program(o *e2e.Origin, it item) int {
@@ -229,6 +252,9 @@ func program(o *e2e.Origin, it item) int {
 		return 2
 	default: // 500, 429, 403cf: the same answer on every attempt
 		o.Handle(it.Path, response(it, statusCode(it.Status), it.N))
+		if it.Sweep {
+			return 1 // whether a code of the sweep is retried is not this check's business
+		}
 		return maxRetry + 1
 	}
 }
